@@ -89,7 +89,7 @@ Lemma C08_value_required_refuted :
              end.
 Proof. exists doc_empty_shortname. vm_compute. reflexivity. Qed.
 
-(* (2) REPAIRED (fix 3656060): a character-data element received several text runs (each validated on its own, the
+(* (2) REPAIRED (fix 00b10f0): a character-data element received several text runs (each validated on its own, the
        serializer wrote only the first); the additional run is CharacterContentForbidden now *)
 Definition doc_two_runs := doc "<AR-PACKAGES><AR-PACKAGE><SHORT-NAME>Pkg</SHORT-NAME><CATEGORY>a<!--c-->b</CATEGORY></AR-PACKAGE></AR-PACKAGES>".
 Example fixed_two_runs_strict : match LOAD true doc_two_runs with Val (Raise (ErrParse 1 CharacterContentForbidden _ _) _) => True | _ => False end.
@@ -101,7 +101,7 @@ Example fixed_two_runs_lenient :
   end.
 Proof. vm_compute. auto. Qed.
 
-(* (3) REPAIRED (fix 68ba067): a character reference with a sign, "&#x+41;" / "&#+65;", was accepted and became "A"
+(* (3) REPAIRED (fix 5f62213): a character reference with a sign, "&#x+41;" / "&#+65;", was accepted and became "A"
        (u32::from_str_radix takes a leading '+'); it is InvalidXmlEntity now — error in strict mode, warning in lenient mode *)
 Definition doc_signed_entity := doc "<AR-PACKAGES><AR-PACKAGE><SHORT-NAME>Pkg</SHORT-NAME><DESC><L-2 L=""EN"">&#x+41;</L-2></DESC></AR-PACKAGE></AR-PACKAGES>".
 Definition doc_signed_entity_dec := doc "<AR-PACKAGES><AR-PACKAGE><SHORT-NAME>Pkg</SHORT-NAME><DESC><L-2 L=""EN"">&#+65;</L-2></DESC></AR-PACKAGE></AR-PACKAGES>".
